@@ -26,13 +26,13 @@ MC = {
     "C10": [mc("MC_Clauses", "MC_Clauses_quick", "MC_Clauses", workers=4)],
     "C04": [mc("MC_Clauses", "MC_Clauses_quick", "MC_Clauses", workers=4), mc("RSQ", "MC_RSQ_bs2_quick", "MC_RSQ_bps4"), mc("RSBin", "MC_RSBin_narrow_quick", "MC_RSBin_narrow_deep"), mc("DArr", "MC_DArr_quick", "MC_DArr_deep"),
             mc("Pfs", "MC_Pfs_quick", "MC_Pfs"), mc("MC_BitVecLines", "MC_BitVecLines", "MC_BitVecLines_thorough")],
-    "C05": [mc("RSQ", "MC_RSQ_bs2_quick", "MC_RSQ_bs2_deep"), mc("RSQ", "MC_RSQ_bs4_quick", "MC_RSQ_bs4_deep"), mc("RSQ", "MC_RSQ_bps4", tiers=("thorough",))],
-    "C06": [mc("RSBin", "MC_RSBin_narrow_quick", "MC_RSBin_narrow_deep"), mc("RSBin", "MC_RSBin_wide_quick", "MC_RSBin_wide_deep")],
+    "C05": [mc("QLine", "MC_QLine", workers=4), mc("RSQ", "MC_RSQ_bs2_quick", "MC_RSQ_bs2_deep"), mc("RSQ", "MC_RSQ_bs4_quick", "MC_RSQ_bs4_deep"), mc("RSQ", "MC_RSQ_bps4", tiers=("thorough",))],
+    "C06": [mc("BLine", "MC_BLine", workers=4), mc("RSBin", "MC_RSBin_narrow_quick", "MC_RSBin_narrow_deep"), mc("RSBin", "MC_RSBin_wide_quick", "MC_RSBin_wide_deep")],
     "C07": [mc("DArr", "MC_DArr_quick", "MC_DArr_deep")],
     "C08": [mc("MC_LibBV", "MC_LibBV", "MC_LibBV_deep"), mc("MC_BitVecLines", "MC_BitVecLines", "MC_BitVecLines_thorough")],
     "C09": [mc("Pfs", "MC_Pfs_quick", "MC_Pfs"), mc("Pfs", "MC_Pfs_r4", tiers=("thorough",))],
     "C12": [mc("MC_LibIt", "MC_LibIt")],
-    "C13": [mc("MC_QVec", "MC_QVec")],
+    "C13": [mc("MC_QVec", "MC_QVec"), mc("QLine", "MC_QLine", workers=4)],
     "C15": [mc("HuffWM", "MC_HuffWM_k4_quick", "MC_HuffWM_k4"), mc("HuffWM", "MC_HuffWM_k2_quick", "MC_HuffWM_k2")],
     "C17": [mc("Words", "MC_Words", workers=6)],
     "C18": [mc("MC_Conc", "MC_Conc_none", workers=4), mc("MC_Conc", "MC_Conc_atomic_pair", workers=4), mc("MC_Conc", "MC_Conc_torn_single", workers=4)],
